@@ -12,6 +12,24 @@ CLAIMED = {
             'Trusted: CPython ast, the Pauli oracle, additivity of phases over tensor factors, the g*/p*/c* naming '
             'scheme. Integer overflow ignored.',
             'DESIGN.md 3 (R8, R7, R2, R13), 4 (C01)'),
+    'C02': ('rotation-kernel record extraction (guard / increment / string / write-set) in loop and masked-vector form, '
+            'gather-scatter (in/out) discipline, interleaved-mask rule, call binding',
+            'Each rotation kernel (pyclifford loop form, torchclifford masked form, signless twins) is reduced to the '
+            'record guard=acq(G,P), increment=p_G+1+ipow(P,G) (or +3 with swapped operands), string=P xor G, '
+            'writes only under the guard, and compared with i*P*G; masked rotate_by must gather and scatter through the '
+            'same repeat(mask,2) columns; the generator sign must reach the kernel. With C01 (acq/ipow exact) this '
+            'decides the rotation rule for all inputs; periodicity/inversion are consequences, not re-decided.',
+            'Trusted: CPython ast, naming scheme, numpy/torch copy-vs-view semantics of mask indexing, C01.',
+            'DESIGN.md 3 (R7, R5, R13, R2), 4 (C02)'),
+    'C03': ('ordered-product rule on pauli_combine, summand normal form of the pauli_transform phase formula, '
+            'gather-scatter and embed mask rules, ps0 normal form vs oracle, call binding',
+            'pauli_combine is decided to be the ordered product of selected rows (accumulator left factor, ascending, '
+            'phase read before string overwrite, identity start, selector C[out,in]); pauli_transform is decided to add '
+            'exactly ps_in + ps0(gs_in) + combined phase mod 4; masked application and embed use one interleaved mask; '
+            'coefficients are never written; ps0 is proved for all N. Homomorphism/commutation preservation follow and '
+            'are not separately decided; validity of the map argument is a precondition.',
+            'Trusted: CPython ast, naming scheme, Pauli oracle, C01.',
+            'DESIGN.md 3 (R7, R6, R5, R13, R2, R8), 4 (C03)'),
     'C11': ('constant-table extraction by guard evaluation + literal folding, checked against first-principles '
             'Pauli algebra (symplectic validity, textbook action, distinctness, group closure)',
             'Complete static decision of the finite gate tables: all 31 literal tables (5 named, 24 indexed, 2 CNOT '
